@@ -360,7 +360,8 @@ def draw_line(rng, table):
         return rng.choice(["nope", "Cancel", "pool_size", "poolsize 3", "exit", "quit", "help"])
     # harmless valid commands
     return rng.choice(["num-running", "is-locked", "pool-size", "num-ended", "lock", "unlock", "is-full",
-                       "num-cancelled", "flush", "cancel-all"])
+                       "num-cancelled", "flush", "cancel-all", "lock", "start 1", "apply ctrlrun.work",
+                       "map ctrlrun.work [1]"])
 
 
 def must_reject(line):
@@ -435,10 +436,13 @@ def job_c18(clsname, seed, count, two_sessions=False, replay_lines=None):
                 # block this session's remaining input: not sent
                 kinds["skipped-waiting"] += 1
                 continue
-            if kind == "ok" and line.split(" ")[0] in ("apply", "map", "starmap", "doublestarmap", "start"):
+            if kind == "ok" and line.split(" ")[0] in ("apply", "map", "starmap", "doublestarmap", "start") \
+                    and not A.is_locked:
                 # a well-formed spawning command starts background activity, after which "this
                 # line did not alter the pool" can no longer be judged from outside (C17 covers
-                # what valid commands do): not sent by this fuzzer
+                # what valid commands do): not sent by this fuzzer - unless the pool is locked:
+                # the request is then refused, and the reply is the *empty* message of
+                # PoolIsLocked, still exactly one reply (seed G15)
                 kinds["skipped-spawning"] += 1
                 continue
             kinds[kind] += 1
